@@ -25,6 +25,7 @@ def observe_lines():
             out.append("rb %s %s %s" % (c, k, RB))
         out.append("lastcas " + c)
         out.append("keys " + c)
+    out.append("expstate")      # pending expirations are re-armed by the reopen
     return out
 
 
@@ -49,8 +50,9 @@ def run_child(ops_path, d, name, killat):
     return acks, uuid, points, where, p.returncode
 
 
-def run_reopen(obs_path, d, name):
-    p = subprocess.run([V.HARNESS, "reopen", "-dir", d, "-name", name, "-ops", obs_path], env=V.GOENV, capture_output=True, text=True, timeout=120)
+def run_reopen(obs_path, d, name, mode="reopen"):
+    p = subprocess.run([V.HARNESS, "reopen", "-dir", d, "-name", name, "-ops", obs_path], env=dict(V.GOENV, VERIF_REOPEN_MODE=mode),
+                       capture_output=True, text=True, timeout=120)
     lines = p.stdout.splitlines()
     uuid = lines[0][5:] if lines and lines[0].startswith("uuid ") else None
     collids = [l for l in lines if l.startswith("collid ")]
@@ -96,7 +98,7 @@ def run(tier, seed, log):
         for n in points:
             acks, uuid1, _, where, rc = run_child(ops_path, d, name, n)
             a = len(acks)
-            uuid2, collids, seen, err = run_reopen(obs_path, d, name)
+            uuid2, collids, seen, err = run_reopen(obs_path, d, name, "open" if n % 2 else "reopen")   # ReOpenExisting / CreateOrOpen alternate
             cov["crash_points_tried"] += 1
             cov["kill_sites"][where] = cov["kill_sites"].get(where, 0) + 1
             want_a = model_after(ops[:a], obs)
